@@ -6,6 +6,14 @@ and a real nfc.dep.Target, each under its own ContactlessFrontend over the simul
 activated for real; conversations (systematically enumerated fate scripts and long random ones) are
 recorded frame by frame and validated by spec/Trace_NfcDep.tla, which predicts every frame from the
 payloads and the fates and evaluates the C04 invariants after every step.
+
+Sessions: the same two objects are activated again and again, each time with the parameters of THAT session
+(session_specs: DID, NAD, general bytes present in one session and absent in the next or the other way round, LR,
+bit rate, technology, waiting time changed).  Every attribute the objects keep is session state in the spec (cf,
+assigned by Reactivate / Established); the recorder reads what the objects hold after activate() and, independently,
+what the activation established (options, ATR frames on the air); the spec predicts the traffic from the former and
+invariant SessAttr says both are the same.  MC_NfcDep_sess explores every ordered pair of session configurations,
+MC_NfcDep_stale predicts that an attribute kept from an earlier session breaks delivery on a fault-free link.
 """
 import json, random, itertools, zlib, concurrent.futures as cf
 from vlib import tlc, check
@@ -27,6 +35,7 @@ K_MIU = "FrameFits:target-frame-with-DID-exceeds-LRi-by-1"
 K_TPNI = "FirstPni:re-activated-target-keeps-PNI-of-previous-session:first-request-taken-for-a-retransmission"
 K_IPNI = "FirstPni:re-activated-initiator-starts-with-the-PNI-of-the-previous-session"
 K_DID0 = "OneFaultOk:did=0:initiator-sends-DID-byte-0-after-announcing-no-DID:target-ignores-every-PDU"
+K_STALE = "OneFaultOk:no-frame-lost-or-corrupted-yet-exchange-fails:object-holds-%s-of-an-earlier-session"
 K_LEN = "OnlyCommErr:Target.exchange-raised-Other:struct.error"        # LEN byte 256 (DID, LRi=254)
 
 
@@ -44,6 +53,18 @@ def sig(data):
     for b in data:
         acc = (acc * 31 + b + 1) % 65521
     return acc
+
+
+def gbtok(data):
+    """general bytes (bytes, or hex string as in a conversation spec) -> token (0: none)"""
+    if isinstance(data, str):
+        data = bytes.fromhex(data)
+    return 0 if not data else 1 + sig(bytes(data)) % 1000
+
+
+def brty_of(cfg):
+    """the bit rate a session runs at, by the protocol rule (PSL_REQ to the highest rate asked for)"""
+    return ("106A", "212F", "424F")[cfg.get("brs", 0)]
 
 
 class _SeededOs(object):
@@ -173,30 +194,53 @@ class Conversation(object):
         return fn
 
     def _sessions(self):
-        """[(exchanges, ending, fates)]: an optional first session (plan["s1"] = dict(k=, end="RLS"|"DSL"|"loss")) of k
-        fault-free single-frame exchanges on the same two objects, then the conversation proper"""
+        """[(cfg, exchanges, ending, fates)]: the sessions the same two objects go through.  plan["pre"] = list of
+        earlier sessions dict(cfg=, ex=, end="RLS"|"DSL"|"loss"[, fates=]) each with its OWN parameters (DID, NAD, general
+        bytes, LR, bit rate, waiting time: present in one session and absent in the next, or the other way round);
+        plan["s1"] = dict(k=, end=) is one earlier session of k fault-free single-frame exchanges with the parameters of
+        the conversation proper, which comes last"""
         out = []
         s1 = self.plan.get("s1")
         if s1 is not None:
-            out.append(([(3, 5, 2)] * s1["k"], s1["end"], []))
-        out.append((self.plan["ex"], self.plan.get("release"), self.fates))
+            out.append((self.cfg, [(3, 5, 2)] * s1["k"], s1["end"], []))
+        for pre in self.plan.get("pre", ()):
+            out.append((pre["cfg"], [tuple(x) for x in pre["ex"]], pre["end"], pre.get("fates", [])))
+        out.append((self.cfg, self.plan["ex"], self.plan.get("release"), self.fates))
         return out
 
-    def _const(self):
-        cfg, air, ini = self.cfg, self.air, self.ini
-        # what the receivers announced, from the frames on the air
+    def _const(self, cfg):
+        """what the two objects HOLD after activate() (read from the objects; the target's part is filled in by run())
+        and, under "e", what THIS activation established: the options given to activate() and the ATR_REQ / ATR_RES on
+        the air.  The spec predicts the frames from the former; invariant SessAttr says they are the same."""
+        air, ini = self.air, self.ini
         atr_req = [f for f in air.log if f.src == "I" and b"\xD4\x00" in f.data[:4]][-1].data
         atr_res = [f for f in air.log if f.src == "T" and b"\xD5\x01" in f.data[:4]][-1].data
         k = atr_req.index(b"\xD4\x00")
         lr_i = LR[(atr_req[k + 15] >> 4) & 3]
+        did_air = atr_req[k + 12]
         k = atr_res.index(b"\xD5\x01")
         lr_t = LR[(atr_res[k + 16] >> 4) & 3]
+        wt = min(atr_res[k + 15] & 15, 14)
+        self.tick = 4096 / 13.56E6 * 2 ** wt / R_TICKS         # the response waiting time announced on the air is R_TICKS
         did = cfg.get("did")
         # did: the initiator was given a DID (it then sends a DID byte, also for 0); tdid: the ATR_REQ carries a
         # DID > 0, i.e. the target holds one; did0: a DID of 0 ("no DID" in the ATR_REQ) was configured
-        return dict(lrI=lr_i, lrT=lr_t, did=did is not None, tdid=bool(did), did0=did == 0,
-                    nad=cfg.get("nad") is not None, sb=ini.target.brty == "106A",
-                    miuI=ini.miu, miuT=None, R=R_TICKS, brty=ini.target.brty)
+        est = dict(lrI=LR[cfg.get("lri", 3)], lrT=LR[cfg.get("lrt", 3)], did=did is not None, tdid=did_air > 0,
+                   did0=did == 0, nad=cfg.get("nad") is not None, sb=brty_of(cfg) == "106A", R=R_TICKS, tR=R_TICKS,
+                   gbI=gbtok(cfg.get("gbi")), gbT=gbtok(cfg.get("gbt")))
+        return dict(lrI=lr_i, lrT=lr_t, did=ini.did is not None, did0=ini.did == 0, nad=ini.nad is not None,
+                    sb=ini.target.brty == "106A", miuI=ini.miu, R=int(round(ini.rwt / self.tick)),
+                    gbT=gbtok(ini.general_bytes), tdid=None, miuT=None, tR=None, gbI=None,
+                    e=est, brty=ini.target.brty)
+
+    def _theld(self, cfg, tgt=None):
+        """the target's part: by the protocol rule as long as the device never reported an activation, else what the
+        object holds"""
+        if tgt is None:
+            return dict(tdid=bool(cfg.get("did")), miuT=LR[cfg.get("lri", 3)] - 3 - bool(cfg.get("did")), tR=R_TICKS,
+                        gbI=gbtok(cfg.get("gbi")))
+        tick = 4096 / 13.56E6 * 2 ** min(max(0, cfg.get("wt", 8)), 14) / R_TICKS
+        return dict(tdid=tgt.did is not None, miuT=tgt.miu, tR=int(round(tgt.rwt / tick)), gbI=gbtok(tgt.general_bytes))
 
     def _initiator(self):
         try:
@@ -205,21 +249,20 @@ class Conversation(object):
             self.i_over = True
 
     def _initiator_sessions(self):
-        cfg, air, ini = self.cfg, self.air, self.ini
-        opts = dict(brs=cfg.get("brs", 0), acm=False, lri=cfg.get("lri", 3))
-        if cfg.get("did") is not None:
-            opts["did"] = cfg["did"]
-        if cfg.get("nad") is not None:
-            opts["nad"] = cfg["nad"]
+        air, ini = self.air, self.ini
         pid = 0
-        for s, (exchanges, ending, fates) in enumerate(self._sessions()):
+        for s, (cfg, exchanges, ending, fates) in enumerate(self._sessions()):
+            # the parameters of THIS session: an option that is absent is not passed at all
+            opts = dict(brs=cfg.get("brs", 0), acm=False, lri=cfg.get("lri", 3))
+            for name in ("did", "nad", "gbi"):
+                if cfg.get(name) is not None:
+                    opts[name] = bytes.fromhex(cfg[name]) if name == "gbi" else cfg[name]
             if s > 0:
                 self._finalize("Reactivate")      # the state the previous session left, before activate() touches it
                 self.recording = False            # discovery and ATR frames are not part of the conversation
             if ini.activate(**opts) is None:
                 raise RuntimeError("initiator activation failed (session %d)" % (s + 1))
-            const = self._const()
-            self.tick = ini.rwt / R_TICKS
+            const = self._const(cfg)
             self.t0 = air.clock.now
             if s == 0:
                 self.const = const
@@ -252,19 +295,24 @@ class Conversation(object):
     def _target(self):
         tgt = self.tgt
         sessions = self._sessions()
-        reply = [ex[2] for (exchanges, _, _) in sessions for ex in exchanges]
+        reply = [ex[2] for (_, exchanges, _, _) in sessions for ex in exchanges]
         k = 0
         for s in range(len(sessions)):
             if s > 0 and self.i_over:
                 break
-            self.tmius.append(LR[self.cfg.get("lri", 3)] - 3 - bool(self.cfg.get("did")))
-            if tgt.activate(timeout=10.0, lrt=self.cfg.get("lrt", 3), rwt=self.cfg.get("wt", 8)) is None:
+            cfg = sessions[s][0]
+            self.air.devices["T"].listen_tech = ("212F", "424F") if cfg.get("tech") == "F" else ("106A", "212F", "424F")
+            self.theld.append(self._theld(cfg))
+            opts = dict(lrt=cfg.get("lrt", 3), rwt=cfg.get("wt", 8))
+            if cfg.get("gbt") is not None:
+                opts["gbt"] = bytes.fromhex(cfg["gbt"])
+            if tgt.activate(timeout=10.0, **opts) is None:
                 if not self.recording and len(sessions) == 1:
                     raise RuntimeError("target activation failed")
                 # no DEP_REQ got through in this session: the device never reported an activation
                 self.log("TEnd", kind="NotActivated")
                 continue
-            self.tmius[-1] = tgt.miu
+            self.theld[-1] = self._theld(cfg, tgt)
             data = None
             while True:
                 try:
@@ -289,12 +337,10 @@ class Conversation(object):
         # the only real-time element is the air's watchdog against a hung simulation: generous, and never an event
         self.air = air = Air(stall_timeout=STALL)
         clf_i, clf_t = air.frontends()
-        if self.cfg.get("tech") == "F":
-            air.devices["T"].listen_tech = ("212F", "424F")
         self.ini, self.tgt = nfc.dep.Initiator(clf_i), nfc.dep.Target(clf_t)
         self.recording = False
         self.i_over = False
-        self.tmius, self.consts = [], []
+        self.theld, self.consts = [], []
         air.on_frame = self.on_frame
         old_os = nfc.dep.os
         nfc.dep.os = _SeededOs(zlib.crc32(self.cid.encode()) & 0xFFFF)
@@ -307,10 +353,11 @@ class Conversation(object):
         for r in res:
             if r[0] == "exc":
                 raise r[1]
-        self.const["miuT"] = self.tmius[0]
-        for n, c in enumerate(self.consts):
-            c["miuT"] = self.tmius[n + 1] if n + 1 < len(self.tmius) else self.tmius[-1]
-            c.pop("brty", None)
+        sessions = self._sessions()
+        for n, c in enumerate([self.const] + self.consts):
+            c.update(self.theld[n] if n < len(self.theld) else self._theld(sessions[n][0]))
+            if n:
+                c.pop("brty", None)
         self._finalize("End")
         self.frames = len(air.log)
         return self
@@ -426,6 +473,57 @@ def reactivation_specs(tier):
     return out
 
 
+GB_I = "46666d010111020207ff"          # general bytes as LLCP sends them (hex: specs are stored as JSON)
+GB_T = "46666d01011103020003"
+PLAIN = dict(lri=3, lrt=3, did=None, nad=None, gbi=None, gbt=None, brs=0, tech="A", wt=8)
+# one optional / negotiable parameter of a session at a time, and all of them together
+SESSION_PARAMS = [("did", dict(did=5)), ("did0", dict(did=0)), ("nad", dict(nad=3)), ("nad0", dict(nad=0)),
+                  ("gbi", dict(gbi=GB_I)), ("gbt", dict(gbt=GB_T)), ("lri", dict(lri=0)), ("lrt", dict(lrt=0)),
+                  ("brs", dict(brs=2)), ("tech", dict(tech="F", brs=1)), ("wt", dict(wt=10)),
+                  ("all", dict(did=9, nad=4, gbi=GB_I, gbt=GB_T, lri=1, lrt=2, brs=1, wt=7))]
+
+
+def session_plan(cfgs, ends):
+    """the same two objects go through sessions with the given parameters, every session with chained payloads in
+    both directions and a single-frame exchange; the last one is the conversation proper"""
+    pre = []
+    for cfg, end in zip(cfgs[:-1], ends):
+        mi, mt = miu_of(cfg)
+        pre.append(dict(cfg=cfg, ex=[(2 * mi + 1, 5, mt + 1), (2, 5, 3)], end=end))
+    mi, mt = miu_of(cfgs[-1])
+    return dict(pre=pre, ex=[(2 * mi + 1, 5, mt + 1), (1, 5, 2 * mt), (mi, 5, mt)], release="RLS")
+
+
+def session_specs(tier):
+    """the per-session parameters of the same Initiator and Target objects CHANGE from one activation to the next:
+    each optional field present -> absent and absent -> present (DID > 0, DID 0, NAD, general bytes of either side),
+    LR / bit rate / technology / waiting time larger -> smaller and back, a DID replaced by another one, three sessions
+    in a row; sessions ended by RLS, DSL or loss of the link; fault free and with every single fault on the first frames
+    of the last session.  Judged like every conversation (delivery invariants) plus SessAttr."""
+    out = []
+    quick = tier == "quick"
+    ends = ("RLS", "DSL", "loss")
+    for k, (name, delta) in enumerate(SESSION_PARAMS):
+        with_p = dict(PLAIN, **delta)
+        for way, cfgs in (("drop", [with_p, PLAIN]), ("add", [PLAIN, with_p])):
+            for ei, end in enumerate(ends):
+                if quick and name not in ("did", "all") and ei != k % 3:
+                    continue
+                nsc = (4 if quick else 8) if name in ("did", "nad", "all") and (ei == k % 3 or not quick) else 0
+                for si, sc in enumerate(scripts(nsc, 1)):
+                    out.append(dict(id="p.%s.%s.%s.%d" % (name, way, end, si), cfg=cfgs[-1],
+                                    plan=session_plan(cfgs, [end]), fates=sc))
+    other = dict(PLAIN, did=12, nad=9, gbi=GB_T, lrt=1)
+    some = dict(PLAIN, did=5, nad=3, gbi=GB_I)
+    for name, cfgs in (("change", [some, other]), ("drop-add", [some, PLAIN, other]), ("add-drop", [PLAIN, some, PLAIN]),
+                       ("same", [some, some]), ("nad-only-drop", [some, dict(some, nad=None)]),
+                       ("did-only-drop", [some, dict(some, did=None)])):
+        for ei, end in enumerate(ends):
+            out.append(dict(id="p.%s.%s" % (name, end), cfg=cfgs[-1],
+                            plan=session_plan(cfgs, [end, ends[(ei + 1) % 3]]), fates=[]))
+    return out
+
+
 def truncation_specs(tier):
     """every frame of a conversation (but the one that completes the target's activation) truncated to k = 0..3
     octets, in both directions, at 106A (start byte F0h), 212F and 424F"""
@@ -487,27 +585,76 @@ def nad_tag(tr):
     return tr.get("nadv", tr["const"]["nad"])
 
 
-def classify(tr, verdict):
+ATTR_OWNER = dict(did="initiator.did", did0="initiator.did", nad="initiator.nad", sb="initiator.target.brty",
+                  R="initiator.rwt", gbT="initiator.general_bytes", lrI="initiator.lri",
+                  tdid="target.did", tR="target.rwt", gbI="target.general_bytes", lrT="target.lrt")
+
+
+def attr_word(a, v):
+    if a in ("gbI", "gbT"):
+        return "some" if v else "none"
+    if a == "sb":
+        return "106A" if v else "212F/424F"
+    if a == "did0":
+        return "zero" if v else "not-zero"
+    if isinstance(v, bool):
+        return "present" if v else "absent"
+    return str(v)
+
+
+def elems(x):
+    """a TLA+ set as vlib.tlaval hands it over -> list"""
+    x = list(x) if x else []
+    return list(x[1]) if len(x) == 2 and x[0] == "set" else x
+
+
+def stale_attrs(verdict):
+    """the attributes an object holds that are not what this activation established (detail of a SessAttr verdict)"""
+    d = verdict[3][2] if len(verdict[3]) > 2 else {}
+    return sorted(set(ATTR_OWNER.get(a, a) for a in elems(d.get("bad"))))
+
+
+def const_at(tr, line):
+    """the configuration of the session event `line` (1-based) belongs to"""
+    c = tr["const"]
+    for e in tr["ev"][:line]:
+        if e["a"] == "Activate":
+            c = e["const"]
+    return c
+
+
+def classify(tr, verdict, stale=None):
     """canonical key of a rejection (never the seed / trace id)"""
     line, act, why = verdict[1], verdict[2], verdict[3]
     ev = tr["ev"]
+    cs = const_at(tr, line)
     e = ev[line - 1]
     kind = why[0] if why else "?"
     if kind == "inv":
         names = list(why[1])
         keys = []
         for n in names:
-            if n == "FirstPni":
+            if n == "SessAttr":
+                d = why[2] if len(why) > 2 else {}
+                prev, first = d.get("prev", {}), not d.get("prev", {}).get("some")
+                for a in sorted(elems(d.get("bad"))):
+                    keys.append("SessAttr:%s:holds=%s:this-activation-established=%s:%s" % (
+                        ATTR_OWNER.get(a, a), attr_word(a, d["held"].get(a)), attr_word(a, d["est"].get(a)),
+                        "first-activation" if first else "previous-session-of-the-object=%s" % attr_word(a, prev.get(a))
+                        if a in prev else "re-activation"))
+            elif n == "OneFaultOk" and stale:
+                keys.append(K_STALE % "+".join(stale))
+            elif n == "FirstPni":
                 d = why[2] if len(why) > 2 else {}
                 keys.append(K_TPNI if d.get("last") == "dup" else K_IPNI)
             elif n == "MiuOk":
                 d = why[2] if len(why) > 2 else {}
                 who = [w for w, a, b in (("initiator", "miuI", "expI"), ("target", "miuT", "expT")) if d.get(a) != d.get(b)]
-                c = tr["const"]
+                c = cs["e"]
                 keys.append("MiuOk:%s-MIU-is-not-LR-minus-header:did=%s:nad=%s:off-by=%s" % (
-                    "+".join(who), "0" if c["did0"] else c["did"], nad_tag(tr),
+                    "+".join(who), "0" if c["did0"] else c["did"], nad_tag(tr) if cs is tr["const"] else c["nad"],
                     ",".join(str(d.get(a, 0) - d.get(b, 0)) for w, a, b in (("i", "miuI", "expI"), ("t", "miuT", "expT")) if d.get(a) != d.get(b))))
-            elif n == "OneFaultOk" and tr["const"]["did0"]:
+            elif n == "OneFaultOk" and cs["did0"]:
                 keys.append(K_DID0)
             elif n == "OneFaultOk":
                 # the frames of the failing step: back to the last ICall / the last new request
@@ -516,13 +663,13 @@ def classify(tr, verdict):
                 prev = frames[-2] if len(frames) > 1 else None
                 if lastf["dir"] == "TI" and lastf["t"] == "ACK" and prev is not None and prev["t"] == "NAK":
                     keys.append(K_ACK)
-                elif tr["const"]["did"] and any(x["t"] == "ATN" and x["dir"] == "IT" and not x["did"] for x in frames[-3:]):
+                elif cs["did"] and any(x["t"] == "ATN" and x["dir"] == "IT" and not x["did"] for x in frames[-3:]):
                     keys.append(K_ATN)
                 else:
-                    keys.append("OneFaultOk:%s-%s-%s:did=%s" % (lastf["dir"], lastf["t"], lastf["fate"], tr["const"]["did"]))
+                    keys.append("OneFaultOk:%s-%s-%s:did=%s" % (lastf["dir"], lastf["t"], lastf["fate"], cs["did"]))
             elif n == "FrameFits":
                 d = why[2] if len(why) > 2 else {}
-                c = tr["const"]
+                c = cs
                 if d.get("dir") == "TI" and d.get("did") and d.get("size") == c["lrI"] + 1 and c["miuT"] == c["lrI"] - 3:
                     keys.append(K_MIU)
                 else:
@@ -572,6 +719,16 @@ def mutate_for_selftest(tr):
     return out
 
 
+def mutate_session_selftest(tr):
+    """a later activation reports general bytes of the target that are not the ones of this session: the behaviour
+    still conforms, SessAttr must flag it"""
+    t4 = json.loads(json.dumps(tr))
+    e = [e for e in t4["ev"] if e["a"] == "Activate"][-1]
+    e["const"]["gbI"] = e["const"]["gbI"] + 1
+    t4["id"] = tr["id"] + "-staleattr"
+    return t4
+
+
 def judge(ck, traces, specs, verdicts):
     """verdicts[id] = behavioural conformance; verdicts[id#Inv] = first violation of invariant Inv"""
     acc = nev = nframes = 0
@@ -585,11 +742,12 @@ def judge(ck, traces, specs, verdicts):
         vs = [verdicts[tr["id"]]] + [verdicts[tr["id"] + "#" + n] for n in flagged]
         if vs[0][0] == "ACCEPT":
             acc += 1
+        stale = stale_attrs(verdicts[tr["id"] + "#SessAttr"]) if "SessAttr" in flagged else None
         for v in vs:
             if v[0] == "ACCEPT":
                 continue
             e = tr["ev"][v[1] - 1]
-            for key in classify(tr, v):
+            for key in classify(tr, v, stale):
                 ck.violation(key, "conversation %s: event %d (%s) %s ; event=%s ; const=%s" % (
                     tr["id"], v[1], v[2], json.dumps(v[3], default=list)[:500], json.dumps(e)[:300],
                     json.dumps(tr["const"])), replay=dict(kind="conversation", spec=by_id[tr["id"]]))
@@ -597,8 +755,9 @@ def judge(ck, traces, specs, verdicts):
 
 
 # ------------------------------------------------------------------ the check
-MC_INVS = ["FirstPni", "MiuOk", "ExactlyOnce", "Intact", "OnlyCommErr", "FrameFits", "OneFaultOk", "TargetOk", "PniInSync"]
+MC_INVS = ["SessAttr", "FirstPni", "MiuOk", "ExactlyOnce", "Intact", "OnlyCommErr", "FrameFits", "OneFaultOk", "TargetOk", "PniInSync"]
 WITNESSES_T = ["W_CutAbsorbed", "W_CutFatal"]
+WITNESSES_S = ["W_OptDrop", "W_OptAdd", "W_OptMixed"]
 WITNESSES = ["W_Again", "W_Retx", "W_Atn", "W_Nak", "W_NakAck", "W_ChainBoth", "W_Wrap", "W_ErrTimeout", "W_ErrProto",
              "W_Release", "W_Absorbed"]
 
@@ -629,6 +788,17 @@ def run(tier, seed):
             ck.violation("spec:NfcDep(sessions):" + ",".join(rs.violated or ["deadlock"]),
                          "TLC found a violation in the re-activation model: %s" % str(rs.error_trace)[:2000])
         ck.cover(states=rs.distinct, transitions=rs.generated)
+        # the parameters change from session to session (every ordered pair of MC_CfgsSess): chained traffic after each
+        # optional attribute went present -> absent and absent -> present must be reachable ...
+        hit_s, _ = tlc.witnesses("MC_NfcDep.tla", "MC_NfcDep_sessreach.cfg", PID + "_sess", WITNESSES_S)
+        if set(WITNESSES_S) - hit_s:
+            raise tlc.TLCError("vacuous model: witnesses not reached: %s" % sorted(set(WITNESSES_S) - hit_s))
+        # ... and an object that assigns its optional attributes only when the new session has them must be flagged by
+        # the delivery invariants on a fault-free link (prediction; the conformance stage judges the real objects)
+        stl = tlc.run("MC_NfcDep.tla", "MC_NfcDep_stale.cfg", PID + "_stale", workers=4, timeout=300)
+        if not stl.violated:
+            raise tlc.TLCError("vacuous model: attributes kept from an earlier session do not violate any delivery invariant")
+        ck.cover(stale_attribute_model_violates=sorted(stl.violated), session_witnesses=sorted(hit_s))
     hit, _ = tlc.witnesses("MC_NfcDep.tla", "MC_NfcDep_reach.cfg", PID, WITNESSES)
     missing = set(WITNESSES) - hit
     if missing:
@@ -641,16 +811,19 @@ def run(tier, seed):
     ck.cover(asis_model_violates=sorted(a.violated), did0_model_violates=sorted(d0.violated))
 
     # 2. conformance: real conversations -> Trace_NfcDep
-    specs = (boundary_specs(tier) + reactivation_specs(tier) + truncation_specs(tier) + systematic_specs(tier)
+    specs = (boundary_specs(tier) + reactivation_specs(tier) + session_specs(tier) + truncation_specs(tier) + systematic_specs(tier)
              + random_specs(tier, seed))
     recs = record_all(specs)
     traces = [t for t, _ in recs]
     self_t = mutate_for_selftest(next(t for t in traces if any(e["a"] == "TRet" for e in t["ev"]) and len(t["ev"]) > 12))
-    verdicts, st = tlc.validate_traces("Trace_NfcDep.tla", "Trace_NfcDep.cfg", PID, traces + self_t,
+    self_s = mutate_session_selftest(next(t for t in traces if t["id"].startswith("p.all.drop")))
+    verdicts, st = tlc.validate_traces("Trace_NfcDep.tla", "Trace_NfcDep.cfg", PID, traces + self_t + [self_s],
                                        shards=16, timeout=900 if quick else 3000)
     for t in self_t:
         if verdicts[t["id"]][0] == "ACCEPT":
             raise tlc.TLCError("binding vacuous: corrupted trace %s accepted" % t["id"])
+    if self_s["id"] + "#SessAttr" not in verdicts:
+        raise tlc.TLCError("binding vacuous: an attribute that is not the one this activation established was not flagged")
     acc, nev, nframes = judge(ck, traces, specs, verdicts)
     brty = {}
     for _, m in recs:
@@ -662,8 +835,11 @@ def run(tier, seed):
              bit_rates=brty, configurations=len(CONFIGS),
              boundary_conversations=sum(1 for s in specs if s["id"][0] == "b"),
              reactivation_conversations=sum(1 for s in specs if s["id"][0] == "a"),
+             session_parameter_change_conversations=sum(1 for s in specs if s["id"][0] == "p"),
+             activations_recorded=len(traces) + sum(1 for t in traces for e in t["ev"] if e["a"] == "Activate"),
              truncation_conversations=sum(1 for s in specs if s["id"][0] == "c"),
-             binding_selftest="wrong PNI, dropped frame and altered payload signature all rejected")
+             binding_selftest="wrong PNI, dropped frame, altered payload signature and an attribute held that the "
+                              "activation did not establish all rejected")
     ck.sample(dict(trace=traces[0]["id"], const=traces[0]["const"], first_events=traces[0]["ev"][:5]))
     ck.sample(dict(mc="MC_NfcDep", distinct=r.distinct, depth=r.depth, asis_violations=sorted(a.violated)))
     ck.assume("the target application's timeout never expires during a conversation (1e6 s in the binding)",
@@ -690,7 +866,8 @@ def replay(rep, args):
         if v[0] != "ACCEPT":
             for k in range(max(0, v[1] - 6), v[1]):
                 print("  event %d: %s" % (k + 1, json.dumps(tr["ev"][k])))
-            print("  keys: %s" % classify(tr, v))
+            sa = verdicts.get(tr["id"] + "#SessAttr")
+            print("  keys: %s" % classify(tr, v, stale_attrs(sa) if sa else None))
             rc = 1
     if rc:
         print("VIOLATION property=%s replay=%s" % (PID, args.replay))
